@@ -298,7 +298,12 @@ pub(super) fn find_date_time(
             ];
 
             // Sort transitions
-            let sorted = additional_transition_times.windows(2).all(|x| x[0] <= x[1]);
+            let mut sorted = additional_transition_times.windows(2).all(|x| x[0] <= x[1]);
+
+            // DST start and end times can coincide on some years only, in which case their order is given by the other years
+            if sorted && additional_transition_times.chunks_exact(2).any(|x| x[0] == x[1]) {
+                sorted = alternate_time.dst_start_end_order() != core::cmp::Ordering::Greater;
+            }
 
             if !sorted {
                 for chunk in additional_transition_times.chunks_exact_mut(2) {
